@@ -22,6 +22,10 @@ package datastore
 // never the other way round (the functions that lock both - addToNodeLog, newVersion, merge, commit, ... -
 // take the repo lock first; a goroutine that takes them in the opposite order deadlocks against them).
 //@ lockorder repoT.RWMutex nodeT.RWMutex
+// Two more orders that the current code follows everywhere and that a repair must not invert (the first
+// attempt at the hideBranch repair would have nested idMutex inside repoMutex):
+//@ lockorder repoManager.repoMutex repoT.RWMutex
+//@ lockorder repoManager.idMutex repoManager.repoMutex
 
 
 //@ func repoT.newMutationID
@@ -430,7 +434,7 @@ package datastore
 //@   modifies *
 
 //@ func repoManager.setNodeNote
-//@   prop C11
+//@   prop C11 C20
 //@   lockset
 //@   lockbalance
 //@   inline
@@ -555,7 +559,7 @@ package datastore
 //@   modifies *
 
 //@ func repoManager.addToNodeLog
-//@   prop C11
+//@   prop C11 C20
 //@   lockset
 //@   lockbalance
 //@   inline
